@@ -121,8 +121,9 @@ else:
     def _get_non_none_type(t: Any) -> Any:
         """Extract the non-None type from Optional[T]."""
         if _is_optional(t):
-            args = get_args(t)
-            return next(arg for arg in args if arg is not type(None))
+            non_none = tuple(arg for arg in get_args(t) if arg is not type(None))
+            # Optional[Union[a, b]] is Union[a, b, None]: keep every remaining member
+            return non_none[0] if len(non_none) == 1 else Union[non_none]
         return t
 
     def _resolve_type_alias(annotation, field_name=None, class_module=None):
@@ -265,6 +266,12 @@ else:
         if origin is Union:
             args = get_args(expected)
             non_none_args = [arg for arg in args if arg is not type(None)]
+
+            # A member the value already is an exact instance of wins over coercion
+            # (Union[int, str] must keep the string "123" a string, as Pydantic does)
+            for union_type in non_none_args:
+                if union_type in (str, int, float, bool) and type(value) is union_type:
+                    return value
 
             # Try each type in the union
             validation_errors = []
